@@ -288,6 +288,14 @@ func (x *runCtx) event(shape string) error {
 			x.ts += 23
 		}
 		return nil
+	case "Abig": // frames on both sides of the ADTS frame-length field's upper bits (2048, 4096), then a small one
+		for i, n := range []int{2040, 2041, 6200, 4089, 50} {
+			if err := x.pubAudio(append([]byte{byte(salt), byte(i)}, body(n-2, salt+i)...)); err != nil {
+				return err
+			}
+			x.ts += 23
+		}
+		return nil
 	case "Ash2": // a new AAC sequence header with another AudioSpecificConfig (mid-stream change)
 		if a != "aac" && a != "aac48" {
 			return nil
@@ -353,7 +361,7 @@ func shapesFor(c codecs) []string {
 		s = append(s, "A", "A1", "A3")
 	}
 	if c.Audio == "aac" || c.Audio == "aac48" {
-		s = append(s, "Ash2")
+		s = append(s, "Ash2", "Abig")
 	}
 	return append(s, "J", "Jb", "M")
 }
